@@ -431,8 +431,9 @@ private:
                            , std::ptrdiff_t y
                            )
     {
+        // buf holds one complete decoded row y of the bitmap; copy the part inside the requested region
         if(  y >= this->_settings._top_left.y
-          && y <  this->_settings._dim.y
+          && y <  this->_settings._top_left.y + this->_settings._dim.y
           )
         {
             typename Buffer::const_iterator beg = buf.begin() + this->_settings._top_left.x;
@@ -440,7 +441,7 @@ private:
 
             std::copy( beg
                      , end
-                     , view.row_begin( y )
+                     , view.row_begin( y - this->_settings._top_left.y )
                      );
         }
     }
@@ -461,7 +462,7 @@ private:
         std::size_t stream_pos = this->_info._offset;
 
         using Buf_type = std::vector<rgba8_pixel_t>;
-        Buf_type buf( this->_settings._dim.x );
+        Buf_type buf( this->_info._width );
         Buf_type::iterator dst_it  = buf.begin();
         Buf_type::iterator dst_end = buf.end();
 
@@ -472,12 +473,13 @@ private:
         // The origin of a top-down DIB is also the bottom left corner of the bitmap image,
         // but in this case the bottom left corner is the first pixel of the last row of bitmap data.
         // - "Programming Windows", 5th Ed. by Charles Petzold explains Windows docs ambiguities.
+        // the run-length stream always describes the complete bitmap, row by row
         std::ptrdiff_t ybeg = 0;
-        std::ptrdiff_t yend = this->_settings._dim.y;
+        std::ptrdiff_t yend = this->_info._height;
         std::ptrdiff_t yinc = 1;
         if( this->_info._height > 0 )
         {
-            ybeg = this->_settings._dim.y - 1;
+            ybeg = this->_info._height - 1;
             yend = -1;
             yinc = -1;
         }
